@@ -16,11 +16,13 @@ type Group struct {
 	err    error
 }
 
+//go:norace
 func WithContext(ctx context.Context) (*Group, context.Context) {
 	ctx, cancel := vctx.WithCancel(ctx)
 	return &Group{cancel: cancel}, ctx
 }
 
+//go:norace
 func (g *Group) Wait() error {
 	g.wg.Wait()
 	if g.cancel != nil {
@@ -29,6 +31,7 @@ func (g *Group) Wait() error {
 	return g.err
 }
 
+//go:norace
 func (g *Group) Go(f func() error) {
 	g.wg.Add(1)
 	vrt.Go("errgroup", func() {
